@@ -82,6 +82,21 @@ func (e *Enc) evalClause(fr *Frame, c *Clause, cur, old *St, extra map[string]SV
 			}
 		}
 	}
+	if c.Loop == 0 && ctx.iter == nil && fr.curBlock != nil {
+		// call-site clause inside a loop body: iter(e) is e at the start of the current iteration
+		// of the innermost loop around the call
+		var in *loopInfo
+		for _, li := range fr.loops {
+			if li.blocks[fr.curBlock] && li.headSt != nil {
+				if in == nil || len(li.blocks) < len(in.blocks) {
+					in = li
+				}
+			}
+		}
+		if in != nil {
+			ctx.iter = in.headSt
+		}
+	}
 	for k, v := range extra {
 		ctx.params[k] = v
 	}
